@@ -117,6 +117,76 @@ theorem C12_array_complete (rows : List Row) (cols : List Nat) (r : Row) (hr : r
     rw [block_cell rows cols r.concept i j (by omega) r.lang hj]
     simp [List.getElem?_eq_getElem hi, he]
 
+/-! ### the per-concept and per-language id lists -/
+
+theorem mem_cells (b : List (List Nat)) (v : Nat) : v ∈ b.flatMap id ↔ ∃ i j, cellAt b i j = some v := by
+  simp only [List.mem_flatMap, id, cellAt]
+  constructor
+  · rintro ⟨row, hrow, hv⟩
+    obtain ⟨i, hi, rfl⟩ := List.getElem_of_mem hrow
+    obtain ⟨j, hj, rfl⟩ := List.getElem_of_mem hv
+    exact ⟨i, j, by simp [List.getElem?_eq_getElem hi, List.getElem?_eq_getElem hj]⟩
+  · rintro ⟨i, j, h⟩
+    cases hr : b[i]? with
+    | none => simp [hr] at h
+    | some row =>
+      simp only [hr, Option.bind_some] at h
+      exact ⟨row, List.mem_of_getElem? hr, List.mem_of_getElem? h⟩
+
+/-- **C12, `get_list(row=c, flat=True)`**: exactly the non-zero ids of the rows of concept `c` whose
+language is a column. -/
+theorem C12_listOfRow (rows : List Row) (cols : List Nat) (c v : Nat) :
+    v ∈ listOfRow rows cols c ↔ v ≠ 0 ∧ ∃ r ∈ rows, r.id = v ∧ r.concept = c ∧ r.lang ∈ cols := by
+  simp only [listOfRow, List.mem_filter, bne_iff_ne, ne_eq, mem_cells]
+  constructor
+  · rintro ⟨⟨i, j, h⟩, hv⟩
+    obtain ⟨r, hr, h1, h2, h3⟩ := C12_array_sound rows cols c i j v h hv
+    exact ⟨hv, r, hr, h1, h2, List.mem_of_getElem? h3⟩
+  · rintro ⟨hv, r, hr, rfl, rfl, hl⟩
+    obtain ⟨j, hj, he⟩ := List.getElem_of_mem hl
+    obtain ⟨_, i, hi⟩ := C12_array_complete rows cols r hr j (by rw [List.getElem?_eq_getElem hj, he])
+    exact ⟨⟨i, j, hi⟩, hv⟩
+
+theorem idxOf?_getElem (cols : List Nat) (l j : Nat) (h : cols.idxOf? l = some j) : cols[j]? = some l := by
+  unfold List.idxOf? at h
+  obtain ⟨hj, he, _⟩ := List.findIdx?_eq_some_iff_getElem.mp h
+  rw [List.getElem?_eq_getElem hj]
+  simpa using he
+
+/-- **C12, `get_list(col=l, flat=True)`**: exactly the non-zero ids of the rows of language `l`. -/
+theorem C12_listOfCol (rows : List Row) (cols : List Nat) (l j v : Nat) (hj : cols.idxOf? l = some j) :
+    v ∈ listOfCol rows cols l ↔ v ≠ 0 ∧ ∃ r ∈ rows, r.id = v ∧ r.lang = l := by
+  have hcj := idxOf?_getElem cols l j hj
+  simp only [listOfCol, hj, List.mem_filter, bne_iff_ne, ne_eq, List.mem_map, array, arrayBlocks,
+    List.mem_flatMap]
+  constructor
+  · rintro ⟨⟨line, ⟨⟨c, blk⟩, ⟨c', hc', hcb⟩, hline⟩, rfl⟩, hv⟩
+    simp only [Prod.mk.injEq] at hcb
+    obtain ⟨rfl, rfl⟩ := hcb
+    simp only at hline
+    obtain ⟨i, hi, rfl⟩ := List.getElem_of_mem hline
+    have hcell : cellAt (block rows cols c') i j = some ((block rows cols c')[i].getD j 0) := by
+      simp only [cellAt, List.getElem?_eq_getElem hi, Option.bind_some]
+      have hlen : ((block rows cols c')[i]).length = cols.length := by simp [block]
+      have hjl : j < cols.length := by
+        cases h : cols[j]? with
+        | none => rw [h] at hcj; cases hcj
+        | some _ => exact (List.getElem?_eq_some_iff.mp h).1
+      rw [List.getElem?_eq_getElem (by omega)]
+      simp [List.getD_eq_getElem?_getD, List.getElem?_eq_getElem (show j < ((block rows cols c')[i]).length by omega)]
+    obtain ⟨r, hr, h1, _, h3⟩ := C12_array_sound rows cols c' i j _ hcell hv
+    refine ⟨hv, r, hr, h1, ?_⟩
+    rw [hcj] at h3; exact (Option.some.inj h3).symm
+  · rintro ⟨hv, r, hr, rfl, rfl⟩
+    obtain ⟨hc, i, hi⟩ := C12_array_complete rows cols r hr j hcj
+    simp only [cellAt] at hi
+    cases h : (block rows cols r.concept)[i]? with
+    | none => simp [h] at hi
+    | some line =>
+      simp only [h, Option.bind_some] at hi
+      refine ⟨⟨line, ⟨(r.concept, block rows cols r.concept), ⟨r.concept, hc, rfl⟩, List.mem_of_getElem? h⟩, ?_⟩, hv⟩
+      rw [List.getD_eq_getElem?_getD, hi]; rfl
+
 /-- **C12, etymological dictionary**: a row id stands in slot `j` of cognate id `g` iff the
 row carries `g` and its language is `cols[j]`. -/
 theorem C12_etymdict (rows : List Row) (cols : List Nat) (g : Nat) (slots : List (List Nat))
